@@ -88,6 +88,14 @@ func (p *propC10) Prepare(seed uint64, tier string) int {
 		}
 		p.pool = append(p.pool, poolEntry{Name: fmt.Sprintf("model%d", i), Bytes: b, Med: Medium{Records: rs}, FT: ft})
 	}
+	for i, rs := range stateProbeStreams(NewRng(seed, "C10/stateprobe", 0)) {
+		b := rs.Build()
+		f := parseFrame(b, 0)
+		if f == nil || len(f.Problems) > 0 || !plainDecodeOK(b) {
+			continue
+		}
+		p.pool = append(p.pool, poolEntry{Name: fmt.Sprintf("stateprobe%d", i), Bytes: b, Med: Medium{Records: rs}})
+	}
 	if len(p.pool) == 0 {
 		fatalInfra("C10: empty pool")
 	}
